@@ -24,7 +24,8 @@ PINS = [('plasTeX/Renderers/__init__.py', 'Renderable.filename'), ('plasTeX/Rend
         ('plasTeX/__init__.py', 'Macro.currentSection'), ('plasTeX/Filenames.py', 'Filenames._newFilename')]
 RULE = ('generated article/book documents: sectioning commands of six levels in arbitrary up/down order (some starred, some labelled), '
         'paragraphs of unique marker words with \\textbf nesting, footnotes (also nested and inside lists), itemize/enumerate, quote, '
-        'figures with captions, \\ref/\\pageref/\\cite/\\index, thebibliography, \\printindex, \\tableofcontents; x renderer/theme '
+        'figures with captions, \\ref/\\pageref/\\cite/\\index, thebibliography, \\printindex or a theindex environment, \\tableofcontents, '
+        'text leaves glued to image-placeholder look-alikes (zw1x\\&zw2x-width;\\&zuab;zw3x, read in the html.parser-decoded text); x renderer/theme '
         '(HTML5 default, HTML5 minimal, XHTML default) x split-level -10..6 (all 17 values on the split-levels stream) x ten wildcard '
         'templates (default, static names first, $id/$title(n)/$num(n)/$name/$ref/$jobname, prefixed brackets) x four single-file templates '
         'x nine bad-chars settings x base-url x toc settings; malformed stream: templates without a fail-safe alternative, bad-chars that '
@@ -166,6 +167,7 @@ def oracle(case, rec):
         if n[2] > split and n[0] in assigned:
             return ('C13:file-for-deeper-unit', 'the %s %r (level %d > split level %d) was given the file %s' % (n[8], n[6], n[2], split, assigned[n[0]]))
     # (b) names
+    deferred = None
     names = list(assigned.values())
     if len(set(names)) != len(names):
         dup = sorted(x for x in set(names) if names.count(x) > 1)
@@ -178,10 +180,13 @@ def oracle(case, rec):
             stem = fn[:-len(eff['ext'])] if eff['ext'] and fn.endswith(eff['ext']) else fn
             b = (set(stem) & bad) - literal
             if b:
-                key = 'C13:forbidden-character'
+                v = ('C13:forbidden-character', 'file name %r contains the forbidden character(s) %r' % (fn, ''.join(sorted(b))))
                 if b == {' '} and re.search(r'\$\{?\w+\}?\(\s*\d+\s*\)', eff['filename']):
-                    key += ':word-limit-blank'       # the words of $x(n) are joined by blanks after the substitution
-                return (key, 'file name %r contains the forbidden character(s) %r' % (fn, ''.join(sorted(b))))
+                    # the words of $x(n) are joined by blanks after the substitution: a known finding.  It is reported only when
+                    # nothing else is wrong with the case, so that it cannot hide another violation
+                    deferred = deferred or (v[0] + ':word-limit-blank', v[1])
+                else:
+                    return v
     # (c) files on disk
     ondisk = set(rec['files'])
     if ondisk != set(names):
@@ -210,9 +215,9 @@ def oracle(case, rec):
             seen.setdefault(w, []).append(name)
     for w in allwords:
         if w not in seen:
-            return ('C13:text-lost', 'the word zw%dx of the document is in no output file' % w)
+            return ('C13:text-lost', 'the text %s of the document is in no output file' % rd.word_name(w))
         if len(seen[w]) > 1:
-            return ('C13:text-repeated', 'the word zw%dx appears %d times: %s' % (w, len(seen[w]), seen[w]))
+            return ('C13:text-repeated', 'the text %s appears %d times: %s' % (rd.word_name(w), len(seen[w]), seen[w]))
     order = {f: i for i, f in enumerate(rec.get('fnotes', []))}
     for s, fn in assigned.items():
         exp = body[s] + [w for f in sorted(notes[s], key=lambda f: order.get(f, 10 ** 9)) for w in notes[s][f]]
@@ -242,7 +247,7 @@ def oracle(case, rec):
     if sec.get('status') != 'ok' or sec.get('files') != rec.get('digests'):
         return ('C13:not-deterministic', 'a second render of the same input wrote different files: %s vs %s' % (
             sorted((sec.get('files') or {}).items())[:6], sorted((rec.get('digests') or {}).items())[:6]))
-    return None
+    return deferred
 
 
 def judge(case, io, mo):
